@@ -207,7 +207,7 @@ type runCfg struct {
 }
 
 func runObligations(cfg runCfg, items []*oblResult) {
-	sem := make(chan struct{}, 6)
+	sem := make(chan struct{}, 5)
 	var wg sync.WaitGroup
 	for _, it := range items {
 		if it.preRun {
@@ -566,6 +566,9 @@ func writeEvidence(path, prop, tier string, seed int, start time.Time, items []*
 		if it.outside != nil && it.outside.ok {
 			// known finding: the obligation that counts is the one restricted to inputs outside the recorded failing region
 			it = it.outside
+		}
+		if !it.ok && hasProp(knownHit, it.Name) {
+			continue // recorded known finding without a provable complement: reported separately, not counted
 		}
 		if it.obl.ExpectSat {
 			// vacuity probes are not proof obligations
